@@ -165,7 +165,7 @@ def run(ctx):
     n_add = 0
     shared = {}
     for e in ai.events:
-        if e['kind'] != 'mutation' or e['how'] not in ('append', 'extend', 'insert', 'setitem'):
+        if e['kind'] != 'mutation' or e['how'] not in ('append', 'extend', 'insert', 'setitem', 'setslice'):
             continue
         n_add += 1
         bad = [x for x in e['sources'] if x[1] in ('other:query',)]
@@ -186,6 +186,25 @@ def run(ctx):
         for c in [c for c in walk_local(fn) if isinstance(c, ast.Call) and is_self_attr(c.func) and c.func.attr in m.methods]:
             if c.func.attr in ai.no_inline and c.func.attr not in ('_get_object_with_access_controls',):
                 ctx.fail('C15.R3', 'KmipEngine.%s|uninterpreted-call %s' % (root, c.func.attr), m.site(c, fn), 'call of %s is not interpreted by the effect analysis' % c.func.attr)
+    # ---------------- R7 instances of multi-valued attributes keep their position
+    ctx.rule('C15.R7', 'a multi-valued attribute whose instances are rows of an id-ordered relationship (order_by=<Row>.id) is modified by storing into the addressed row; the operations never replace a row by a newly built one at an index (the new row gets the highest id, so after the commit the instance moves to the end and every later index shifts)')
+    ordered = set()
+    pt_ = src.tree('kmip/pie/objects.py')
+    for a_ in ast.walk(pt_):
+        if isinstance(a_, ast.Assign) and isinstance(a_.value, ast.Call) and (call_name(a_.value) or '').split('.')[-1] == 'relationship' and any(k.arg == 'order_by' for k in a_.value.keywords):
+            for tg in a_.targets:
+                if isinstance(tg, ast.Name):
+                    ordered.add(tg.id)
+    ctx.count('id_ordered_relationships', len(ordered), 2)
+    repl = {}
+    for e in ai.events:
+        if e['kind'] == 'mutation' and e['ctx'][0] in ROOTS and e['how'] == 'setitem' and e['field'] in ordered:
+            repl.setdefault((e['ctx'][0], e['fn'], e['line'], e['field']), e)
+    for (root, fn, line, field), e in sorted(repl.items()):
+        ctx.fail('C15.R7', 'KmipEngine.%s|replaces row of %s by index|via %s' % (fn, field, root), '%s:%s KmipEngine.%s' % (ENGINE, line, fn),
+                 '%s[<index>] is assigned a new row object: %s is ordered by row id, so the modified instance moves to the end after the commit and the instances after it change their index' % (field, field))
+    if not repl:
+        ctx.ok('C15.R7', ENGINE, 'no attribute operation replaces a row of %s by index' % sorted(ordered))
     # ---------------- R4 an unsuccessful attribute operation changes nothing
     ctx.rule('C15.R4', 'in Set/Modify/DeleteAttribute (and the helpers they call) no failure is raised after the loaded object was modified: a call that reports failure leaves the stored object and all others untouched (the batch session is not rolled back, so a dirty instance would be written by the next commit)')
     n_r4 = 0
